@@ -222,7 +222,7 @@ def accepts(ptype, cfg, v):
             return ACCEPT if allow_none else REJECT
         if not isinstance(v, str):
             return REJECT
-        if re.match(r'^#?(([0-9a-fA-F]{2}){3}|([0-9a-fA-F]){3})$', v):
+        if re.fullmatch(r'#?(([0-9a-fA-F]{2}){3}|([0-9a-fA-F]){3})', v):     # (fullmatch: '$' would let a trailing newline through)
             return ACCEPT
         if cfg.get('allow_named', True):
             return UNSPEC                       # the list of named colours is the library's own table
